@@ -763,7 +763,8 @@ def run_surface(prop, tier, seed, model=True):
     jobs = []
     if prop == 'C14':
         jobs = [{'part': 'routes', 'seed': seed, 'tier': tier, 'rules': []},
-                {'part': 'features', 'seed': seed, 'tier': tier, 'rules': []}]
+                {'part': 'features', 'seed': seed, 'tier': tier, 'rules': []},
+                {'part': 'headers', 'seed': seed, 'tier': tier, 'rules': []}]
     else:
         nw = 12
         for w in range(nw):
@@ -792,6 +793,9 @@ def run_surface(prop, tier, seed, model=True):
                 why = '%s: %s %s at version %s (%s) answered %s' % (','.join(mons), bad['method'], bad['route'], bad['v'], bad['vkind'], bad['status'])
             elif bad['kind'] == 'feature':
                 why = '%s: feature %s at 1.%d observed %s' % (','.join(mons), bad['fid'], bad['v'], 'present' if bad['present'] else 'absent')
+            elif bad['kind'] == 'hdr':
+                why = '%s: %s %s (%s) at version %s (%s) answered %s' % (','.join(mons), bad['method'], bad['route'], bad['probe'], bad['v'], bad['vkind'], bad['status'])
+                sig['tag'] = bad['probe']
             elif bad['kind'] == 'scope':
                 why = '%s: GET /usages?%s as %s answered %s with the usages of %s' % (
                     ','.join(mons), bad['query'], bad['caller'], bad['status'],
